@@ -203,6 +203,10 @@ class C03(DiffProperty):
                 else:
                     n = rng.randrange(0, 50)
                 m = [0 if rng.random() < 0.2 else rng.choice(BOUND + [0x41, rng.randrange(1, 256)]) for _ in range(n)]
+                if rng.random() < 0.25:
+                    # long runs without a zero: maximal blocks (code MAXLEN) followed by a further block
+                    run = rng.choice([ml - 2, ml - 1, ml, ml + 1, 2 * (ml - 1), 2 * (ml - 1) + 1])
+                    m = [rng.randrange(1, 256) for _ in range(run)] + m[:rng.choice([0, 1, 3])]
                 if n > 35 and rng.random() < 0.5:
                     p = rng.choice([0, 1, 30, 31])
                     m[p] = 0; m[p + 1] = 0
